@@ -3,3 +3,5 @@
 import SigpyVerif.Props.C09
 import SigpyVerif.Props.C05
 import SigpyVerif.Props.C03
+import SigpyVerif.Props.C11
+import SigpyVerif.Props.C11Shape
